@@ -1,0 +1,21 @@
+//go:build !verif
+
+/*
+ * Verification hooks (guard: build tag "verif"). With the tag off every hook is an empty,
+ * inlinable function and has no effect on behaviour.
+ */
+
+package y
+
+// VerifEnabled reports whether the verification hooks are compiled in.
+const VerifEnabled = false
+
+// VerifPoint marks a named schedule / persistence point. No-op without the verif tag.
+func VerifPoint(name string) {}
+
+// VerifFile reports a file-level persistence event (create, sync, syncdir, remove, ...).
+// No-op without the verif tag.
+func VerifFile(op, path string) {}
+
+// VerifNowUnix returns a virtual clock reading, if one is installed. Never without the verif tag.
+func VerifNowUnix() (uint64, bool) { return 0, false }
